@@ -249,8 +249,9 @@ type c15Case struct {
 	victim    int // the one destination whose sink may go away in this case
 	faults    map[string]bool
 	shape     []string
-	lastFlush string // error class of the most recent Flush
-	deadline  bool   // the caller has set a write deadline through Conn() that has already expired
+	lastFlush string      // error class of the most recent Flush
+	deadline  bool        // the caller has set a write deadline through Conn() that has already expired
+	dup       map[int]int // destination j is a second mention of destination dup[j] (same host:port, same sink)
 }
 
 func (cs *c15Case) envs() string {
@@ -299,16 +300,36 @@ func (cs *c15Case) collect(sendReportedOK, grace bool) [][][]byte {
 		time.Sleep(time.Millisecond)
 	}
 	for i, s := range cs.sinks {
+		if _, shared := cs.dup[i]; shared {
+			continue // a second mention of an earlier destination: its datagrams arrive at that sink, see below
+		}
 		out[i] = s.drain()
 		if sendReportedOK && s.up && len(out[i]) == 0 {
 			t0 := time.Now()
-			out[i] = s.await(300 * time.Millisecond)
+			out[i] = s.await(2 * time.Second)
 			cs.c.Cov.Hit("sink.awaited")
 			if len(out[i]) == 0 {
 				cs.c.Cov.Hit("sink.await-timeout")
 			} else if time.Since(t0) > 5*time.Millisecond {
 				cs.c.Cov.Hit("sink.await-slow")
 			}
+		}
+	}
+	// a destination listed twice: every Flush sends the message to it twice, one send right after the other, so the
+	// sink holds every datagram twice in a row; each mention is credited with one copy.  Anything else (an odd
+	// number, two different neighbours) is left with the first mention, where it cannot match the model.
+	for j, i := range cs.dup {
+		d := out[i]
+		ok := len(d)%2 == 0
+		for m := 0; ok && m < len(d); m += 2 {
+			ok = string(d[m]) == string(d[m+1])
+		}
+		if ok {
+			var half [][]byte
+			for m := 0; m < len(d); m += 2 {
+				half = append(half, d[m])
+			}
+			out[i], out[j] = half, append([][]byte(nil), half...)
 		}
 	}
 	return out
@@ -781,6 +802,13 @@ func suiteC15(c *Ctx) {
 		}
 		for j := 0; j < cs.k; j++ {
 			cs.sinks = append(cs.sinks, newUDPSink())
+		}
+		if cs.multi && cs.k >= 2 && r.Chance(25) {
+			// the same host:port listed twice (a copy-and-paste in a configuration): two destinations all the same
+			cs.sinks[cs.k-1].close()
+			cs.sinks[cs.k-1] = cs.sinks[0]
+			cs.dup = map[int]int{cs.k - 1: 0}
+			c.Cov.Hit("multi.destination-listed-twice")
 		}
 		cs.victim = r.Intn(cs.k)
 		mode := "single"
